@@ -133,7 +133,7 @@ fn history_case(ctx : &mut Ctx, rng : &mut Rng, case : u64, small : bool)
     }
 
     // every strict prefix is rejected
-    let step = if image.len() > 600 { 7 } else { 1 };
+    let step = if image.len() > 600 { 7 } else { 1 } * crate::verif::util::env_u64("VERIF_PREFIX_STEP", 1) as usize;
     let mut cut = 0;
     while cut < image.len()
     {
@@ -150,7 +150,9 @@ fn history_case(ctx : &mut Ctx, rng : &mut Rng, case : u64, small : bool)
     }
 
     // single bit flips (small instances: every position) and random garbage: error or different well-formed data, never a panic
-    let positions : Vec<usize> = if image.len() <= 400 { (0..image.len() * 8).collect() } else { (0..300).map(|_| rng.below(image.len() * 8)).collect() };
+    let max_flips = crate::verif::util::env_u64("VERIF_MAX_FLIPS", 1_000_000) as usize;
+    let mut positions : Vec<usize> = if image.len() <= 400 { (0..image.len() * 8).collect() } else { (0..300).map(|_| rng.below(image.len() * 8)).collect() };
+    if positions.len() > max_flips { rng.shuffle(&mut positions); positions.truncate(max_flips); }
     for bit in positions
     {
         let mut damaged = image.clone();
@@ -224,7 +226,7 @@ fn table_case(ctx : &mut Ctx, rng : &mut Rng, case : u64, small : bool)
             ("entries", J::Arr(expected.iter().map(|(k, v)| J::obj(vec![("path", J::s(k)), ("hash", J::Str(v.ticket.human_readable())), ("timestamp", J::Str(format!("{}", v.timestamp))), ("executable", J::Bool(v.executable))])).collect()))]));
     }
 
-    let step = if image.len() > 600 { 11 } else { 1 };
+    let step = if image.len() > 600 { 11 } else { 1 } * crate::verif::util::env_u64("VERIF_PREFIX_STEP", 1) as usize;
     let mut cut = 0;
     while cut < image.len()
     {
@@ -239,7 +241,9 @@ fn table_case(ctx : &mut Ctx, rng : &mut Rng, case : u64, small : bool)
         }
         cut += step;
     }
-    let positions : Vec<usize> = if image.len() <= 300 { (0..image.len() * 8).collect() } else { (0..300).map(|_| rng.below(image.len() * 8)).collect() };
+    let max_flips = crate::verif::util::env_u64("VERIF_MAX_FLIPS", 1_000_000) as usize;
+    let mut positions : Vec<usize> = if image.len() <= 300 { (0..image.len() * 8).collect() } else { (0..300).map(|_| rng.below(image.len() * 8)).collect() };
+    if positions.len() > max_flips { rng.shuffle(&mut positions); positions.truncate(max_flips); }
     for bit in positions
     {
         let mut damaged = image.clone();
